@@ -35,6 +35,7 @@ func walkLexFunc(r *lexRoles, fd *ast.FuncDecl, init *lexState, bind map[types.O
 	for k, v := range bind {
 		init.env[k] = v
 	}
+	var unsupportedDefer []token.Pos
 	var w *Walker[*lexState]
 	w = &Walker[*lexState]{
 		Clone: cloneLex,
@@ -180,13 +181,21 @@ func walkLexFunc(r *lexRoles, fd *ast.FuncDecl, init *lexState, bind map[types.O
 				pr.ret = append(pr.ret, ev.eval(st, e))
 			}
 		}
+		// deferred calls run after the result operands were evaluated, last first
+		for _, d := range w.PendingDefers() {
+			if _, isLit := d.Call.Fun.(*ast.FuncLit); isLit {
+				unsupportedDefer = append(unsupportedDefer, d.Pos())
+				continue
+			}
+			lexCall(r, ev, st, d.Call)
+		}
 		res = append(res, pr)
 	}
 	if lexUnrollOverride > 0 {
 		w.LoopUnroll = lexUnrollOverride
 	}
 	w.Run(fd.Body, init)
-	return res, w.Overflow, w.Unsupported, derefViol
+	return res, w.Overflow, append(w.Unsupported, unsupportedDefer...), derefViol
 }
 
 func derefSafe(st *lexState, off int) bool {
@@ -899,6 +908,14 @@ func scanWalk(r *lexRoles, fd *ast.FuncDecl, entry []charFact) *scanResult {
 			LoopUnroll: 2,
 			MaxPaths:   40000,
 			IsPanic:    func(s ast.Stmt) bool { return IsPanicCall(info, s) },
+			OnDefer: func(st *lexState, d *ast.DeferStmt) (*lexState, bool) {
+				// a deferred advance() runs after everything this walk looks at; anything
+				// else deferred (a sub-scanner, a closure) is not modelled here
+				if fn := CalleeOf(info, d.Call); fn == nil || fn != r.advance {
+					w.Unsupported = append(w.Unsupported, d.Pos())
+				}
+				return st, true
+			},
 			OnCond: func(st *lexState, cond ast.Expr, taken bool) (*lexState, bool) {
 				f, ok := ev.condFact(st, cond, taken)
 				if !ok {
@@ -1405,7 +1422,10 @@ func ruleLexEscapes(c *Ctx) []Obligation {
 	if len(want) < 4 {
 		return []Obligation{{Key: "grammar.ebnf escape_seq", Status: Undecided, Detail: fmt.Sprintf("could not read the numeric escape forms from grammar.ebnf (got %v)", want)}}
 	}
-	fd := c.MustFunc("homescript/lexer", "Lexer", "makeEscapeSequence")
+	fd, _ := lexEscapeFuncs(r)
+	if fd == nil {
+		return []Obligation{{Key: "lexer escape scanner", Status: Undecided, Detail: "anchor unresolved: the Lexer method that scans one escape sequence (no parameters, first result a rune)"}}
+	}
 	// find the switch over the rune after the backslash; each numeric case calls a helper(prefix, start, radix, digits)
 	got := map[string][3]int{} // intro → radix, digits, prefixLen
 	ast.Inspect(fd.Body, func(n ast.Node) bool {
@@ -1470,7 +1490,7 @@ func ruleLexEscapes(c *Ctx) []Obligation {
 		obs = append(obs, o)
 	}
 	// the helper's digit class matches the radix: `if radix == 16 { f = IsHexDigit } else { f = IsOctalDigit }`
-	hp := FuncDecl(r.pkg, "Lexer", "escapePart")
+	_, hp := lexEscapeFuncs(r)
 	if hp != nil {
 		o := Obligation{Key: "escape digit class follows the radix", Pos: c.Pos(hp.Pos()), Nontrivial: true}
 		okHex, okOct := false, false
@@ -1963,7 +1983,7 @@ func ruleLocAdvance(c *Ctx) []Obligation {
 func ruleLexEscapeDecode(c *Ctx) []Obligation {
 	r := discoverLexRoles(c)
 	info := r.info
-	hp := FuncDecl(r.pkg, "Lexer", "escapePart")
+	_, hp := lexEscapeFuncs(r)
 	o := Obligation{Key: "lexer.escapePart|code point decoded from the consumed digits", Nontrivial: true}
 	if hp == nil {
 		o.Status, o.Detail = Undecided, "numeric escape helper not found"
@@ -2175,4 +2195,41 @@ func ruleLexEscapeDecode(c *Ctx) []Obligation {
 		o.Status, o.Detail = Discharged, "digit-value function " + valFn.Name() + " is correct on 0-9, A-F, a-f"
 	}
 	return []Obligation{o}
+}
+
+
+// lexEscapeFuncs resolves, by signature, the Lexer method that scans one escape sequence (no
+// parameters, first result a rune) and its numeric helper (first result a rune, takes the radix
+// and digit count as parameters).
+func lexEscapeFuncs(r *lexRoles) (seq, part *ast.FuncDecl) {
+	var seqs, parts []*ast.FuncDecl
+	for _, fd := range AllFuncDecls(r.pkg) {
+		if fd.Recv == nil || recvTypeName(fd.Recv.List[0].Type) != "Lexer" || fd.Body == nil {
+			continue
+		}
+		fn, _ := r.info.Defs[fd.Name].(*types.Func)
+		if fn == nil {
+			continue
+		}
+		sig := fn.Type().(*types.Signature)
+		if sig.Results().Len() < 1 {
+			continue
+		}
+		b, ok := sig.Results().At(0).Type().Underlying().(*types.Basic)
+		if !ok || b.Kind() != types.Int32 {
+			continue
+		}
+		if sig.Params().Len() == 0 {
+			seqs = append(seqs, fd)
+		} else {
+			parts = append(parts, fd)
+		}
+	}
+	if len(seqs) == 1 {
+		seq = seqs[0]
+	}
+	if len(parts) == 1 {
+		part = parts[0]
+	}
+	return
 }
